@@ -176,6 +176,10 @@ def build():
             body = [_hdr(lang, nm) + " {", "    s = \"żółw\";", "    return s + \"é\"; }", "",
                     _hdr(lang, "w_" + _ident(cid), 1) + " { t = \"ß\"; return t; }"]
         put(cid, _wrap(lang, body, cid), lang)
+        # two long functions of exactly the same length in one file
+        cid = f"{p}.twins"
+        body = _fn(lang, "t1_" + _ident(cid), 35) + [""] + _fn(lang, "t2_" + _ident(cid), 35, variant=1) + [""] + _fn(lang, "t3_" + _ident(cid), 62)
+        put(cid, _wrap(lang, body, cid), lang)
         # suppression marker on a long function, next to an unmarked long one
         cid = f"{p}.nocl"
         f1 = _fn(lang, "hidden_" + _ident(cid), 34)
@@ -206,6 +210,8 @@ def build():
                      "class K:", "    def m_py_async(self):", "        pass", "", "    @staticmethod",
                      "    def s_py_async(y=lambda q: (q)):", "        return y"], "py")
     put("py.cont", ["def c_py_cont(a, \\", "        b):", "    x = a + \\", "        b", "    return x", "", "y = c_py_cont(1, 2)"], "py")
+    put("py.contdef", ["x = 1 + \\", "def after_py_contdef(a):", "    return a", "", "async \\", "def main_py_contdef():", "    pass", "",
+                        "y = (1,", "     2); z = \\", "    3", "def last_py_contdef(b): \\", "    return b"], "py")
     put("py.tabs", ["def t_py_tabs(a):", "\tif a:", "\t\treturn 1", "\treturn 2"], "py")
     put("py.deflast", ["x = 1", "def d_py_deflast(a)"], "py", trailing=False)
     put("py.lambda", ["f = lambda a: (a)", "def l_py_lambda(a): return a", "g = [l_py_lambda(i) for i in (1, 2)]"], "py")
